@@ -2202,8 +2202,7 @@ static Boolean SymbolAdder(PTree* PDest, PTree Neu, void* pData) {
         if (AV_ON(AV_SYM)) {
             Boolean Same = (NewEntry->SymWert.Typ == (*Node)->SymWert.Typ)
                         && ((NewEntry->SymWert.Typ != TempInt)
-                            || (NewEntry->SymWert.Contents.Int
-                                == (*Node)->SymWert.Contents.Int));
+                            || (NewEntry->SymWert.Contents.Int == OldInt));
 
             asl_verif_sym(
                     "sym_def", Neu->Name, (long)Neu->Attribute, &NewEntry->SymWert,
